@@ -201,7 +201,7 @@ func (e *Exec) stepInsert(op *Op, mc *model.Coll) {
 			// the document object is internal to clover: find the new id
 			got, _, rerr := e.readColl(op.Coll)
 			if rerr != nil {
-				e.fail([]string{"C01"}, "C01/readback-error", fmt.Sprintf("after %s: %v", what, rerr), nil)
+				e.fail([]string{"C01", "C11"}, "C01/readback-error", fmt.Sprintf("after %s: %v", what, rerr), nil)
 				return false
 			}
 			var fresh []string
@@ -565,7 +565,7 @@ func (e *Exec) stepBulk(op *Op, mc *model.Coll) {
 			return
 		}
 		if rerr != nil {
-			e.fail(props, "C01/readback-error", fmt.Sprintf("after %s: %v", what, rerr), feats)
+			e.fail(append(append([]string{}, props...), "C11"), "C01/readback-error", fmt.Sprintf("after %s: %v", what, rerr), feats)
 			return
 		}
 		A := detA
@@ -1412,7 +1412,7 @@ func (e *Exec) Audit() {
 			return
 		}
 		if err != nil {
-			e.fail([]string{"C06", "C09"}, "C06/count-error", fmt.Sprintf("audit: Count(%q) failed: %v", name, err), nil)
+			e.auditFail([]string{"C06", "C09"}, "C06/count-error", fmt.Sprintf("audit: Count(%q) failed: %v", name, err), nil)
 			return
 		}
 		docs, err := e.findAll(query.NewQuery(name))
@@ -1420,11 +1420,11 @@ func (e *Exec) Audit() {
 			return
 		}
 		if err != nil {
-			e.fail([]string{"C06", "C01"}, "C06/scan-error", fmt.Sprintf("audit: FindAll(%q) failed: %v", name, err), nil)
+			e.auditFail([]string{"C06", "C01"}, "C06/scan-error", fmt.Sprintf("audit: FindAll(%q) failed: %v", name, err), nil)
 			return
 		}
 		if n != len(docs) || n != len(mc.Docs) {
-			e.fail([]string{"C06", "C09"}, "C06/count", fmt.Sprintf("audit: collection %q: Count=%d, FindAll returns %d, model has %d documents", name, n, len(docs), len(mc.Docs)), e.collFeatures(name))
+			e.auditFail([]string{"C06", "C09"}, "C06/count", fmt.Sprintf("audit: collection %q: Count=%d, FindAll returns %d, model has %d documents", name, n, len(docs), len(mc.Docs)), e.collFeatures(name))
 			return
 		}
 		// 2. every index enumerates exactly the collection
@@ -1435,7 +1435,7 @@ func (e *Exec) Audit() {
 					return
 				}
 				if err != nil {
-					e.fail([]string{"C06", "C14", "C02", "C01"}, "C06/index-scan-error", fmt.Sprintf("audit: index scan of %q.%q failed: %v", name, f, err), map[string]string{"dir": fmt.Sprint(dir)})
+					e.auditFail([]string{"C06", "C14", "C02", "C01"}, "C06/index-scan-error", fmt.Sprintf("audit: index scan of %q.%q failed: %v", name, f, err), map[string]string{"dir": fmt.Sprint(dir)})
 					return
 				}
 				if e.Ctl.GetsUnderCursor > 0 {
@@ -1452,7 +1452,7 @@ func (e *Exec) Audit() {
 					}
 					t := model.TupleOf(md, so)
 					if prevT != nil && model.DefinitelyAfter(*prevT, t, so) {
-						e.fail([]string{"C06", "C14", "C02", "C08", "C01"}, "C06/index-order", fmt.Sprintf("audit: enumerating %q through its index on %q (dir %d): position %d (%s) sorts before position %d (%s): an index entry does not reflect the document's current value", name, f, dir, i, model.TupleClassKey(t), i-1, model.TupleClassKey(*prevT)), map[string]string{"dir": fmt.Sprint(dir)})
+						e.auditFail([]string{"C06", "C14", "C02", "C08", "C01"}, "C06/index-order", fmt.Sprintf("audit: enumerating %q through its index on %q (dir %d): position %d (%s) sorts before position %d (%s): an index entry does not reflect the document's current value", name, f, dir, i, model.TupleClassKey(t), i-1, model.TupleClassKey(*prevT)), map[string]string{"dir": fmt.Sprint(dir)})
 						return
 					}
 					tt := t
@@ -1475,7 +1475,7 @@ func (e *Exec) Audit() {
 				}
 				if bad != "" {
 					// this is FindAll(all documents, sorted by f) returning something else than the collection
-					e.fail([]string{"C06", "C14", "C02", "C01"}, "C06/index-scan", fmt.Sprintf("audit: enumerating %q through its index on %q (FindAll sorted by it, dir %d): %s", name, f, dir, bad), map[string]string{"dir": fmt.Sprint(dir)})
+					e.auditFail([]string{"C06", "C14", "C02", "C01"}, "C06/index-scan", fmt.Sprintf("audit: enumerating %q through its index on %q (FindAll sorted by it, dir %d): %s", name, f, dir, bad), map[string]string{"dir": fmt.Sprint(dir)})
 					return
 				}
 			}
@@ -1514,7 +1514,7 @@ func (e *Exec) Audit() {
 	} else if len(onlyWant) > 0 {
 		kind = "both"
 	}
-	e.fail([]string{"C06"}, "C06/rebuild-keyset", fmt.Sprintf("audit: the store holds %d keys where a database freshly built from the same logical state holds %d: stale keys %s (%d), missing keys %s (%d)", len(got), len(want), showKeys(onlyGot), len(onlyGot), showKeys(onlyWant), len(onlyWant)), map[string]string{"kind": kind})
+	e.auditFail([]string{"C06"}, "C06/rebuild-keyset", fmt.Sprintf("audit: the store holds %d keys where a database freshly built from the same logical state holds %d: stale keys %s (%d), missing keys %s (%d)", len(got), len(want), showKeys(onlyGot), len(onlyGot), showKeys(onlyWant), len(onlyWant)), map[string]string{"kind": kind})
 }
 
 // indexWitnesses looks, through the public API only, for a document that an
